@@ -31,6 +31,7 @@ out = ['## 10. Detection: which checks catch which deliberately broken trees', '
        '### Seeded changes (independent)', '',
        '| id | property | what the change needs to manifest | caught by | note |', '|---|---|---|---|---|']
 UNCAUGHT = {
+    'C07-h1': 'not caught: the size accounting of species x point fields in an IN-MEMORY store (refusal threshold) is not enumerated - the harness trajectories carry no such field in in-memory stores (section 5)',
     'C11-g3': 'adjudicated: outside the property as written. The change moves the engine-database lookup so that a model whose engine is MISSING from the database is refused (descriptive ValueError) also when no PM method needs it; the property quantifies over option combinations on a valid model, and the unchanged code refuses the same model with the same error for every combination that needs the database. Not an internal error, no option combination on the shipped models changes.',
     'C03-d1': 'not caught by C03 itself',
     'C05-c2': 'caught by C04 (exit 1, segment-sum): a zero-length antimeridian segment is counted twice; C05 does not judge the shares of a zero-length segment (0/0 is undefined), so this is a conservation violation, not an attribution one',
